@@ -626,16 +626,37 @@ func matcherReturnsKeys(w *World, m *parserModel, lk *ssa.Lookup) (bool, string)
 						}
 					}
 				}
-				// (b) a value v returned under a successful lookup table[v]
-				okLookup := false
-				for _, f := range factsAt(b) {
-					if f.Op == token.ILLEGAL && f.Truth {
-						if ex, ok := f.X.(*ssa.Extract); ok && ex.Index == 1 {
-							if l2, ok := ex.Tuple.(*ssa.Lookup); ok && l2.CommaOk && isTable(l2.X) && l2.Index == e {
-								okLookup = true
+				// (b) a value v put into the result under a successful lookup table[v]: at the return itself, or at every
+				// place where v is stored into a slice literal (the operand of an append feeding a single exit)
+				lookupOKAt := func(blk *ssa.BasicBlock) bool {
+					for _, f := range factsAt(blk) {
+						if f.Op == token.ILLEGAL && f.Truth {
+							if ex, ok := f.X.(*ssa.Extract); ok && ex.Index == 1 {
+								if l2, ok := ex.Tuple.(*ssa.Lookup); ok && l2.CommaOk && isTable(l2.X) && l2.Index == e {
+									return true
+								}
 							}
 						}
 					}
+					return false
+				}
+				okLookup := lookupOKAt(b)
+				if !okLookup {
+					sites, all := 0, true
+					eachInstr(fn, func(i2 ssa.Instruction) {
+						st, ok := i2.(*ssa.Store)
+						if !ok || st.Val != e {
+							return
+						}
+						if _, isLit := rootOfAddr(st.Addr).(*ssa.Alloc); !isLit {
+							return
+						}
+						sites++
+						if !lookupOKAt(st.Block()) {
+							all = false
+						}
+					})
+					okLookup = sites > 0 && all
 				}
 				if !okLookup {
 					return false, fmt.Sprintf("matcher may return %s which is not known to be a key of the node's option table (at %s)", e.String(), w.IPos(ret))
@@ -754,42 +775,43 @@ func rC03Iterator(w *World, r *Report) {
 				if !ok {
 					continue
 				}
-				v := ret.Results[0]
-				if s, ok := constString(v); ok {
-					if s != "" {
-						ru.Bad(name+"/return", w.IPos(ret), "returns a constant other than the empty string")
+				for _, v := range phiLeaves(ret.Results[0], map[ssa.Value]bool{}) { // a single exit merges the cases in a phi
+					if s, ok := constString(v); ok {
+						if s != "" {
+							ru.Bad(name+"/return", w.IPos(ret), "returns a constant other than the empty string")
+						}
+						continue
 					}
-					continue
-				}
-				n++
-				ld, ok := v.(*ssa.UnOp)
-				var ia *ssa.IndexAddr
-				if ok {
-					ia, ok = ld.X.(*ssa.IndexAddr)
-				}
-				good := false
-				if ok {
-					// index = load idx (+ off)
-					idx := ia.Index
-					if off != 0 {
-						if bo, ok := idx.(*ssa.BinOp); ok && bo.Op == token.ADD {
-							if k, ok := constInt(bo.Y); ok && k == off {
-								idx = bo.X
+					n++
+					ld, ok := v.(*ssa.UnOp)
+					var ia *ssa.IndexAddr
+					if ok {
+						ia, ok = ld.X.(*ssa.IndexAddr)
+					}
+					good := false
+					if ok {
+						// index = load idx (+ off)
+						idx := ia.Index
+						if off != 0 {
+							if bo, ok := idx.(*ssa.BinOp); ok && bo.Op == token.ADD {
+								if k, ok := constInt(bo.Y); ok && k == off {
+									idx = bo.X
+								}
 							}
 						}
+						_, okIdx := loadOfField(idx, fIdx)
+						// collection = load(load data)
+						okData := false
+						if l2, ok := ia.X.(*ssa.UnOp); ok && l2.Op == token.MUL {
+							_, okData = loadOfField(l2.X, fData)
+						}
+						good = okIdx && okData
 					}
-					_, okIdx := loadOfField(idx, fIdx)
-					// collection = load(load data)
-					okData := false
-					if l2, ok := ia.X.(*ssa.UnOp); ok && l2.Op == token.MUL {
-						_, okData = loadOfField(l2.X, fData)
+					if good {
+						ru.OK(name+"/return", w.IPos(ret), fmt.Sprintf("returns (*data)[idx+%d] unmodified", off))
+					} else {
+						ru.Bad(name+"/return", w.IPos(ret), "does not return the backing element verbatim: "+v.String())
 					}
-					good = okIdx && okData
-				}
-				if good {
-					ru.OK(name+"/return", w.IPos(ret), fmt.Sprintf("returns (*data)[idx+%d] unmodified", off))
-				} else {
-					ru.Bad(name+"/return", w.IPos(ret), "does not return the backing element verbatim: "+v.String())
 				}
 			}
 		}
